@@ -107,7 +107,7 @@ pub fn run(ctx: &Ctx) {
         }
     };
     if let Some(cases) = ctx.replay_cases() {
-        for c in cases {
+        for c in cases.iter().filter(|c| c.get("pages").is_none()) {
             let n = String::from_utf8(unhex(c["name"].as_str().unwrap())).unwrap();
             emit(&mut out, c["entry"].as_str().unwrap(), &n, "replay");
         }
@@ -131,4 +131,207 @@ pub fn run(ctx: &Ctx) {
         }
     }
     out.finish("api");
+    run_pages(ctx);
+}
+
+// ---------------------------------------------------------------- channel pages
+// Multi-page documents in which the SAME (regular) user-chosen name is registered on several
+// pages for DIFFERENT resources.  A resource name is scoped to its page: on every page the name
+// must resolve to the resource registered on THAT page.  Case = per (page, name): the marker
+// (stream bytes) registered there and the decoded stream bytes the name resolves to after
+// writing and re-opening; the judgement (found = Some expected, for all) is made in Coq.
+#[derive(Clone, Debug)]
+struct Res {
+    kind: String, // "rgb" | "gray" | "form"
+    name: String,
+    w: u32,
+    h: u32,
+    data: Vec<u8>, // pixel bytes, or the form's content operators
+}
+fn res_json(r: &Res) -> Value {
+    json!({"kind":r.kind,"name":hex(r.name.as_bytes()),"w":r.w,"h":r.h,"data":hex(&r.data)})
+}
+fn res_from(v: &Value) -> Res {
+    Res {
+        kind: v["kind"].as_str().unwrap().to_string(),
+        name: String::from_utf8(unhex(v["name"].as_str().unwrap())).unwrap(),
+        w: v["w"].as_u64().unwrap() as u32,
+        h: v["h"].as_u64().unwrap() as u32,
+        data: unhex(v["data"].as_str().unwrap()),
+    }
+}
+
+/// Ok(per page, per resource: found decoded bytes or None) / Err(why the document could not be built or read)
+fn run_pages_doc(pages: &[Vec<Res>]) -> Result<Result<Vec<Vec<Option<Vec<u8>>>>, String>, String> {
+    let pages = pages.to_vec();
+    catch(std::panic::AssertUnwindSafe(move || {
+        use oxidize_pdf::graphics::ColorSpace;
+        let mut doc = Document::new();
+        for rs in &pages {
+            let mut page = Page::a4();
+            for (k, r) in rs.iter().enumerate() {
+                match r.kind.as_str() {
+                    "form" => {
+                        let bbox = oxidize_pdf::geometry::Rectangle::from_position_and_size(0.0, 0.0, 10.0, 10.0);
+                        let ops = String::from_utf8(r.data.clone()).map_err(|e| format!("{e}"))?;
+                        page.add_form_xobject(r.name.clone(), FormXObject::from_graphics_ops(bbox, &ops)).map_err(|e| format!("add_form_xobject: {e:?}"))?;
+                    }
+                    kind => {
+                        let cs = if kind == "rgb" { ColorSpace::DeviceRGB } else { ColorSpace::DeviceGray };
+                        page.add_image(r.name.clone(), Image::from_raw_data(r.data.clone(), r.w, r.h, cs, 8));
+                        page.draw_image(&r.name, 20.0 + 30.0 * k as f64, 20.0, 25.0, 25.0).map_err(|e| format!("draw_image: {e:?}"))?;
+                    }
+                }
+            }
+            doc.add_page(page);
+        }
+        let bytes = doc.to_bytes().map_err(|e| format!("to_bytes: {e:?}"))?;
+        let reader = PdfReader::new(Cursor::new(bytes)).map_err(|e| format!("reopen: {e:?}"))?;
+        let pd = PdfDocument::new(reader);
+        let mut all = vec![];
+        for (i, rs) in pages.iter().enumerate() {
+            let pg = pd.get_page(i as u32).map_err(|e| format!("get_page {i}: {e:?}"))?;
+            let xo = match pg.get_resources().and_then(|r| r.get("XObject")).map(|o| pd.resolve(o)) {
+                Some(Ok(PdfObject::Dictionary(d))) => Some(d),
+                _ => None,
+            };
+            // syntactic check kept: every drawn image name is the operand of a Do on this page
+            let mut dos: Vec<String> = vec![];
+            if let Ok(streams) = pd.get_page_content_streams(&pg) {
+                for s in &streams {
+                    if let Ok(ops) = ContentParser::parse(s) {
+                        dos.extend(ops.iter().filter_map(|o| if let ContentOperation::PaintXObject(n) = o { Some(n.clone()) } else { None }));
+                    }
+                }
+            }
+            let mut found = vec![];
+            for r in rs {
+                let as_latin1: String = r.name.bytes().map(|b| b as char).collect();
+                let drawn_ok = r.kind == "form" || dos.iter().any(|d| *d == r.name || *d == as_latin1);
+                let f = xo.as_ref().and_then(|d| d.get(&as_latin1)).and_then(|o| pd.resolve(o).ok()).and_then(|o| match o {
+                    PdfObject::Stream(st) => st.decode(&oxidize_pdf::parser::ParseOptions::default()).ok(),
+                    _ => None,
+                });
+                found.push(if drawn_ok { f } else { None });
+            }
+            all.push(found);
+        }
+        Ok(all)
+    }))
+}
+
+fn emit_pages(out: &mut Out, pages: &[Vec<Res>], class: &str) {
+    let js = json!({"pages": pages.iter().map(|p| p.iter().map(res_json).collect::<Vec<_>>()).collect::<Vec<_>>()});
+    match run_pages_doc(pages) {
+        Ok(Ok(found)) => {
+            let mut items = vec![];
+            for (i, (rs, fs)) in pages.iter().zip(&found).enumerate() {
+                for (r, f) in rs.iter().zip(fs) {
+                    items.push(format!("({}, {}, {}, {})", i, coq_bytes(r.name.as_bytes()), coq_bytes(&r.data), coq_opt(f.as_ref().map(|b| coq_bytes(b)))));
+                }
+            }
+            let shared = pages.iter().flatten().map(|r| &r.name).collect::<std::collections::HashSet<_>>().len() < pages.iter().flatten().count();
+            out.push(coq_list(items), js, class, shared && pages.len() >= 2);
+        }
+        Ok(Err(m)) => out.impl_failures.push(json!({"what":format!("multi-page document could not be written/read: {m}"),"case":js})),
+        Err(m) => out.impl_failures.push(json!({"what":"panic","msg":m,"case":js})),
+    }
+}
+
+fn run_pages(ctx: &Ctx) {
+    let header = "From OxVerif Require Import Base.Util C09.Model C30.Model.";
+    let mut out = Out::new(ctx, header, "list page_res", "pages_code");
+    out.shard_size = 150;
+    if let Some(cases) = ctx.replay_cases() {
+        for c in cases.iter().filter(|c| c.get("pages").is_some()) {
+            let pages: Vec<Vec<Res>> = c["pages"].as_array().unwrap().iter().map(|p| p.as_array().unwrap().iter().map(res_from).collect()).collect();
+            emit_pages(&mut out, &pages, "replay");
+        }
+        out.finish("pages");
+        return;
+    }
+    let mut r = Rng::new(ctx.seed ^ 0x9A6E5);
+    let reg_name = |r: &mut Rng| -> String {
+        // regular, validator-accepted names only: the known finding C30-name-raw must not be involved
+        loop {
+            let n = gen::gen_regular_name(r);
+            if !n.is_empty() && n.bytes().all(|b| (0x21..0x7f).contains(&b) && !b"/<>[](){}%#".contains(&b)) {
+                return n;
+            }
+        }
+    };
+    let pixels = |r: &mut Rng, kind: &str, w: u32, h: u32| -> Vec<u8> {
+        let n = (w * h) as usize * if kind == "rgb" { 3 } else { 1 };
+        if r.chance(1, 3) {
+            vec![r.next() as u8; n] // solid colour
+        } else {
+            r.bytes(n)
+        }
+    };
+    let form_ops = |r: &mut Rng| -> Vec<u8> { format!("0.{} 0 0 rg 0 0 {} {} re f", r.range(1, 9), r.range(1, 9), r.range(1, 9)).into_bytes() };
+    let n = if ctx.thorough() { 600 } else { 120 };
+    for i in 0..n {
+        let np = r.range(2, 4) as usize;
+        let name = if i % 5 == 0 { "Im1".to_string() } else { reg_name(&mut r) };
+        let name2 = loop {
+            let x = reg_name(&mut r);
+            if x != name {
+                break x;
+            }
+        };
+        let (w, h) = (r.range(1, 5) as u32, r.range(1, 5) as u32);
+        let kind = if r.chance(2, 3) { "rgb" } else { "gray" };
+        let mut pages: Vec<Vec<Res>> = vec![];
+        let class;
+        match i % 6 {
+            // the same name on every page, different pictures of equal size
+            0 | 1 => {
+                class = "same_name_images_equal_size";
+                for _ in 0..np {
+                    pages.push(vec![Res { kind: kind.into(), name: name.clone(), w, h, data: pixels(&mut r, kind, w, h) }]);
+                }
+            }
+            // the same name, different sizes
+            2 => {
+                class = "same_name_images_other_size";
+                for p in 0..np {
+                    let (w2, h2) = (w + p as u32, h);
+                    pages.push(vec![Res { kind: kind.into(), name: name.clone(), w: w2, h: h2, data: pixels(&mut r, kind, w2, h2) }]);
+                }
+            }
+            // the same name for different form XObjects
+            3 => {
+                class = "same_name_forms";
+                for _ in 0..np {
+                    pages.push(vec![Res { kind: "form".into(), name: name.clone(), w: 0, h: 0, data: form_ops(&mut r) }]);
+                }
+            }
+            // two names per page, exchanged from page to page; some pages repeat an earlier picture
+            4 => {
+                class = "two_names_exchanged";
+                let a = pixels(&mut r, kind, w, h);
+                let b = pixels(&mut r, kind, w, h);
+                for p in 0..np {
+                    let (x, y) = if p % 2 == 0 { (a.clone(), b.clone()) } else { (b.clone(), a.clone()) };
+                    pages.push(vec![
+                        Res { kind: kind.into(), name: name.clone(), w, h, data: x },
+                        Res { kind: kind.into(), name: name2.clone(), w, h, data: y },
+                    ]);
+                }
+            }
+            // image on one page, form XObject under the same name on the next, image again
+            _ => {
+                class = "same_name_image_and_form";
+                for p in 0..np {
+                    if p % 2 == 0 {
+                        pages.push(vec![Res { kind: kind.into(), name: name.clone(), w, h, data: pixels(&mut r, kind, w, h) }]);
+                    } else {
+                        pages.push(vec![Res { kind: "form".into(), name: name.clone(), w: 0, h: 0, data: form_ops(&mut r) }]);
+                    }
+                }
+            }
+        }
+        emit_pages(&mut out, &pages, class);
+    }
+    out.finish("pages");
 }
